@@ -226,7 +226,8 @@ CompactStep(k, rec) ==
 
 (* ---------------- Candidates: ScoreCandidate x 8 and ChooseMask as the selection loop saw them (C11) ---------------- *)
 CandStep(k, rec, ly) ==
-  IF rec.kind # "Ok" THEN (IF rec.kind \in {"EncodedData", "SpecifiedVersion"} THEN TRUE ELSE Require(FALSE, k, rec, "C10", rec.kind))
+  IF ~InDomain(RegsOf(rec)) THEN TRUE                               \* forced mode cannot carry the input: no claim (BuildUnspecified)
+  ELSE IF rec.kind # "Ok" THEN (IF rec.kind \in {"EncodedData", "SpecifiedVersion"} THEN TRUE ELSE Require(FALSE, k, rec, "C10", rec.kind))
   ELSE IF VersionOfSize(rec.size) = 0 \/ ly.v # VersionOfSize(rec.size) THEN Require(FALSE, k, rec, "C03", "side is not 17+4v")
   ELSE IF rec.opts.mask >= 0 THEN Require(rec.chosen = rec.opts.mask, k, rec, "C11", "forced mask does not override the selection")
   ELSE
